@@ -50,6 +50,7 @@ for opname, expr in (('AND', 'bool(_a) and bool(_b)'), ('OR', 'bool(_a) or bool(
     c.setup(_setup)
     c.cases([{'k': i} for i in range(len(KINDS))])
     c.ensures('zero-is-false-nonzero-true', 'len(_st) == 1 and iff(_st[0], %s)' % expr)
+    c.ensures('a-truth-value-not-an-operand', "typename(_st[0]) == 'bool'")      # {1 < 2 and n} is True / False wherever it is used or printed
 
 for opname in ('USUB', 'NOT', 'UADD'):
     c = contract(VM, 'VmMath.unary_op', serves=['C02'], name='VmMath.unary_op[%s]' % opname)
@@ -160,8 +161,9 @@ def _setup(b, case):
 c.setup(_setup)
 c.cases([{'k': 0}, {'k': 1}])
 c.ensures('normalised-angle', '0 <= result < 360 and result == fmod(_t, 360)')
+c.ensures('an-angle-already-in-range-comes-back-as-it-is', '0 <= _t < 360 ==> typename(result) == typename(_t)')     # [cycle 355] prints 355
 
-for fn, spec_ in (('round', 'result == round_he(_x)'), ('trunc', 'is_int(result) and abs(result) <= abs(_x) and abs(real(_x) - result) < 1'),
+for fn, spec_ in (('round', 'result == round_he(_x) and is_int(result)'), ('trunc', 'is_int(result) and abs(result) <= abs(_x) and abs(real(_x) - result) < 1'),
                   ('floor', 'is_int(result) and result <= _x and _x < result + 1'), ('ceil', 'is_int(result) and result >= _x and _x > result - 1'),
                   ('sqrt', '(_x >= 0 ==> result >= 0 and result * result == _x) and (_x < 0 ==> result == -1)')):
     c = contract(BM, fn, serves=['C02'])
@@ -280,3 +282,24 @@ def _setup(b, case):
     return {'es': es, 'a': b.sym('int', 'a'), 'b': b.sym('int', 'b'), '_depth': depth}
 c.setup(_setup)
 c.ensures('last-in-first-out', 'result[0] is b and result[1] is a and len(es._stack) == _depth')
+
+
+# ---- a built-in's result depends on THIS call's argument only: the int 90 and the float 90.0 are different arguments
+#      (what an earlier call - of this or another script - computed must not come back)
+c = contract(BM, 'twice', serves=['C02', 'C17', 'C19'], name='lemma:[cycle x]; [cycle y] with x == y numerically, one a float one an int', src='''
+def twice(f1, f2):
+    a = cycle(f1)
+    b = cycle(f2)
+    return (a, b)
+''')
+def _setup(b, case):
+    x = b.sym('int', 'x')
+    b.between(x, 0, 359)
+    from pyvc.ops import mk
+    import z3 as _z3
+    xf = mk(_z3.ToReal(x.t), 'real') if hasattr(x, 't') else float(x)
+    first, second = (xf, x) if case['first'] == 'float' else (x, xf)
+    return {'f1': frame(b, theta=first), 'f2': frame(b, theta=second), '_first': first, '_second': second}
+c.setup(_setup)
+c.cases([{'first': 'float'}, {'first': 'int'}])
+c.ensures('each-result-has-the-kind-of-its-own-argument', 'typename(result[0]) == typename(_first) and typename(result[1]) == typename(_second) and result[0] == result[1]')
